@@ -163,6 +163,16 @@ impl World {
             Some(b) => b,
             None => return (Sharing::NoBlock, None),
         };
+        // packed placement: an empty handle sitting exactly on the border of two
+        // neighbouring blocks may belong to either of them
+        let extent = if me.kind == 0 { me.len } else { me.cap };
+        if extent == 0 && me.ptr == blk.user && me.ptr > 0 {
+            if let Some(prev) = alloc::lookup(me.ptr - 1) {
+                if prev.id != blk.id && prev.user + prev.size == me.ptr {
+                    return (Sharing::Unknown, Some(blk));
+                }
+            }
+        }
         let mut any_other = false;
         let mut nonempty_other = false;
         for (k, s) in &self.slots {
@@ -173,12 +183,14 @@ impl World {
             if v.kind == 2 && v.cap == 0 {
                 continue; // unallocated Vec: dangling pointer, owns nothing
             }
-            if v.ptr >= blk.user && v.ptr <= blk.user + blk.size {
+            let ne = match v.kind {
+                0 => v.len > 0,
+                _ => v.cap > 0,
+            };
+            // the end address counts only for empty handles (a non-empty handle starting
+            // there belongs to a neighbouring block — packed placement)
+            if v.ptr >= blk.user && (v.ptr < blk.user + blk.size || (v.ptr == blk.user + blk.size && !ne)) {
                 any_other = true;
-                let ne = match v.kind {
-                    0 => v.len > 0,
-                    _ => v.cap > 0,
-                };
                 if ne {
                     nonempty_other = true;
                 }
@@ -370,7 +382,8 @@ impl World {
                 if v.kind == 2 && v.cap == 0 {
                     continue;
                 }
-                if v.ptr >= b.user && v.ptr <= b.user + b.size {
+                let ne = if v.kind == 0 { v.len > 0 } else { v.cap > 0 };
+                if v.ptr >= b.user && (v.ptr < b.user + b.size || (v.ptr == b.user + b.size && !ne)) {
                     n += 1;
                 }
             }
